@@ -100,6 +100,9 @@ def make_directory(rng, conv, tier):
         victim = rng.choice(bad)
         victim['data'] = victim['data'][:max(0, min(len(f['data']) for f in files) - 1)]
         victim['kind'] += '+shrunk'
+    for f in ordered:
+        if rng.random() < 0.15:
+            f['ext'] = f['ext'].upper()        # WELL.DLIS / TAPE.LIS: the type gate reads the content, not the extension
     naming = rng.choice(['indexed', 'indexed', 'prefix-stems', 'prefix-stems', 'dotted-stems', 'dotted-stems'])
     if naming == 'indexed':
         for i, f in enumerate(ordered):
@@ -116,6 +119,8 @@ def make_directory(rng, conv, tier):
         # distinct stems that are prefixes of one another (WELL, WELL-1, WELL 2, WELL1, WELL10 ...): still one output set per input
         base = rng.choice(['WELL', 'W', 'log.run', 'A_b'])
         sufs = ['', '-1', ' 2', '(3)', '+x', ',y', '#4', '1', '10', '100', '_a', '_a1', '~z', 'A', 'a', '=5', '.v2', '-1-1', '11']
+        # names that are shell / glob / format patterns (legal file names): WELL[1] as a pattern matches WELL1, WELL* matches all
+        sufs += ['[1]', '*', '?', '[a-z]', '%s', '{0}']
         rng.shuffle(sufs)
         if placement in ('bad-first', 'bad-last'):
             # keep the intended alphabetical placement: sort the chosen suffixes, deal them in order
@@ -124,6 +129,13 @@ def make_directory(rng, conv, tier):
             chosen = sufs[:len(ordered)]
         for f, sfx in zip(ordered, chosen):
             f['name'] = base + sfx + f['ext']
+        if '.' not in base and rng.random() < 0.35:
+            # one file without any extension (tape images are often named FILE001): its stem is still distinct from the others'
+            cand = [f for f, sfx in zip(ordered, chosen) if '.' not in sfx]
+            if cand:
+                f = rng.choice(cand)
+                f['name'] = f['name'][:len(f['name']) - len(f['ext'])]
+                naming += '+no-extension'
     placement = placement + '/' + naming
     # nested directories (recursive conversion): some files one and two levels down
     recurse = rng.random() < 0.4
@@ -136,6 +148,35 @@ def make_directory(rng, conv, tier):
         if not any('/' in f['name'] and f['name'].count('/') >= 2 for f in ordered):
             ordered[-1]['name'] = 'run_1/pass_2/' + ordered[-1]['name'].split('/')[-1]
         placement += '/nested'
+        # the same file name in two directories of the tree (every run directory has its 'main.dlis'): inputs are told apart by
+        # their path only, and their outputs go to different output directories
+        by_dir = {}
+        for f in ordered:
+            by_dir.setdefault(os.path.dirname(f['name']), []).append(f)
+        if len(by_dir) >= 2 and rng.random() < 0.6:
+            d1, d2 = rng.sample(sorted(by_dir), 2)
+            a, b = rng.choice(by_dir[d1]), rng.choice(by_dir[d2])
+            newname = (d2 + '/' if d2 else '') + os.path.basename(a['name'])
+            if all(f['name'] != newname for f in ordered):
+                b['name'] = newname
+                placement += '/same-basename-in-two-directories'
+    # two inputs in one directory that differ in the extension only (WELL.dlis and WELL.DLIS: a re-delivered copy)
+    same_stem = []
+    if conv == 'rp66v1' and rng.random() < 0.12:
+        for a in rng.sample(ordered, len(ordered)):
+            if a['ext'].lower() != '.dlis' or not a['name'].endswith(a['ext']):
+                continue
+            others = [b for b in ordered if b is not a and b['ext'].lower() == '.dlis' and b['name'].endswith(b['ext'])]
+            if not others:
+                continue
+            b = rng.choice(others)
+            stem = a['name'][:len(a['name']) - len(a['ext'])]
+            newname = stem + ('.DLIS' if a['ext'] == '.dlis' else '.dlis')
+            if all(f['name'] != newname for f in ordered):
+                b['name'] = newname
+                same_stem.append(sorted([a['name'], b['name']]))
+                placement += '/same-stem-other-extension'
+            break
     options = {
         'array_reduction': rng.choice(['first', 'first', 'mean', 'median', 'min', 'max']),
         'frame_slice': rng.choice([{}, {}, {'step': 2}, {'start': 0, 'stop': None, 'step': 3}, {'sample': 4}, {'stop': 5}]),
@@ -147,4 +188,8 @@ def make_directory(rng, conv, tier):
     if conv == 'lis':
         # a non-empty channel subset makes every LIS conversion fail (finding F9c of C11): not counted twice
         options['channels'] = []
-    return {'files': ordered, 'options': options, 'placement': placement, 'recurse': recurse}
+    elif rng.random() < 0.2:
+        # reversing / end-relative selections (they select at least one frame of any non-empty log pass); not for LIS, whose
+        # converter is known (C11) to mis-handle them
+        options['frame_slice'] = rng.choice([{'step': -1}, {'start': -3}, {'step': -2}])
+    return {'files': ordered, 'options': options, 'placement': placement, 'recurse': recurse, 'same_stem': same_stem}
